@@ -223,7 +223,8 @@ class Attribute(_BaseAttribute):
                 datatype = type(x)
                 if not self._can_be_casted(Attribute.Type(datatype), self.type):
                     raise Attribute.TypeNotMatchingError(data, datatype, self.type)
-            self._data[key] = Vec(data)
+            # store with the attribute's dtype (like the dense storage), not the value's
+            self._data[key] = Vec(np.array(data, dtype=self.type.dtype))
         
         else:
             datatype = type(value)
